@@ -100,7 +100,46 @@ def unpack(fmt, b):
     return tuple(v for _, _, v in b.fields)
 
 
-STRUCT = types.SimpleNamespace(unpack=unpack, error=_struct.error, calcsize=_struct.calcsize)
+def unpack_from(fmt, b, offset=0):
+    """struct.unpack_from: needs offset + size bytes to be present, returns the fields that start at `offset` (a partially read buffer
+    offers its leading len(b) bytes)"""
+    f = fmt.lstrip('<=@>!')
+    kinds = []
+    for cnt, ch in re.findall(r'(\d*)([id])', f):
+        kinds += [ch] * (int(cnt) if cnt else 1)
+    size = sum(4 if k == 'i' else 8 for k in kinds)
+    if not isinstance(b, SymBytes):
+        return _struct.unpack_from(fmt, b, offset)
+    if len(b) - offset < size:
+        raise _struct.error('unpack_from requires a buffer of at least %d bytes for unpacking %d bytes at offset %d (actual buffer size is %d)' % (offset + size, size, offset, len(b)))
+    pos = 0
+    out = []
+    for k, sz, v in b.fields:
+        if pos >= offset and len(out) < len(kinds):
+            if pos == offset + sum(4 if kk == 'i' else 8 for kk in kinds[:len(out)]) and k == kinds[len(out)]:
+                out.append(v)
+            else:
+                raise Realize('unpack_from at offset %d does not meet the field layout' % offset)
+        elif pos < offset < pos + sz:
+            raise Realize('unpack_from offset %d inside a field' % offset)
+        pos += sz
+    if len(out) != len(kinds):
+        raise Realize('unpack_from beyond the modelled fields')
+    return tuple(out)
+
+
+class _Struct:
+    """stand-in for the module `struct` inside the readers; anything that is not modelled ends the path as inconclusive instead of looking like a reader error"""
+    unpack = staticmethod(unpack)
+    unpack_from = staticmethod(unpack_from)
+    error = _struct.error
+    calcsize = staticmethod(_struct.calcsize)
+
+    def __getattr__(self, name):
+        raise Realize('struct.%s is not modelled by the typed buffer' % name)
+
+
+STRUCT = _Struct()
 
 
 def I(v):
